@@ -280,6 +280,67 @@ func PublishedExtension(key string) (values []string, pattern string, found bool
 	return nil, "", false
 }
 
+// Published lists what the published definition files under /repo/data say: kind "currencies" (codes),
+// "regimes" (country codes), "addons" (keys), "tags" (tag keys for invoices of data/<name>.json).
+func Published(kind, name string) []string {
+	var out []string
+	readJSON := func(path string, v interface{}) bool {
+		data, err := os.ReadFile(path)
+		return err == nil && json.Unmarshal(data, v) == nil
+	}
+	switch kind {
+	case "currencies":
+		files, _ := filepath.Glob("/repo/data/currency/*.json")
+		sort.Strings(files)
+		for _, f := range files {
+			var list []struct {
+				Code string `json:"iso_code"`
+			}
+			if readJSON(f, &list) {
+				for _, c := range list {
+					out = append(out, c.Code)
+				}
+			}
+		}
+	case "regimes", "addons":
+		files, _ := filepath.Glob("/repo/data/" + kind + "/*.json")
+		sort.Strings(files)
+		for _, f := range files {
+			var doc struct {
+				Country string `json:"country"`
+				Key     string `json:"key"`
+			}
+			if readJSON(f, &doc) {
+				if kind == "regimes" {
+					out = append(out, doc.Country)
+				} else {
+					out = append(out, doc.Key)
+				}
+			}
+		}
+	case "tags":
+		// name: "regimes/es" or "addons/it-sdi-v1"; tags offered for invoices
+		var doc struct {
+			Tags []struct {
+				Schema string `json:"schema"`
+				List   []struct {
+					Key string `json:"key"`
+				} `json:"list"`
+			} `json:"tags"`
+		}
+		if readJSON("/repo/data/"+name+".json", &doc) {
+			for _, t := range doc.Tags {
+				if t.Schema == "bill/invoice" {
+					for _, k := range t.List {
+						out = append(out, k.Key)
+					}
+				}
+			}
+		}
+	}
+	return out
+}
+
 // DivFloor is floor(a/b) for b > 0 over mathematical integers.
 func DivFloor(a, b int64) int64 {
 	q := a / b
